@@ -114,6 +114,7 @@ LEAVES = [
     Symbol("plain"), Symbol("None"), Symbol("True"), Symbol("..."), Symbol(".", from_parser=True), Symbol("a-b!"), Symbol("unquote"),
     Symbol("quote"), Symbol("hy.models.Symbol", from_parser=True), Symbol("1+", from_parser=True), Symbol("#weird", from_parser=True),
     Keyword("kw"), Keyword(""), Keyword("a-b"), Keyword("from_parser"), Keyword("with space", from_parser=True),
+    Keyword(":a", from_parser=True), Keyword("::", from_parser=True), Keyword("a:b"),      # what the reader makes of ::a, ::: and :a:b
     String(""), String("text"), String('q"uote\n'), String("br", brackets=""), String("br]x", brackets="ab"), String("]]", brackets="x"),
     Bytes(b""), Bytes(b"\x00\xff"), Integer(0), Integer(-7), Integer(10 ** 30), Float(1.5), Float(float("inf")), Float(float("-inf")), Float(float("nan")),
     Float(-0.0), Complex(2j), Complex(complex(1, -1)), Complex(complex(float("nan"), float("inf"))),
